@@ -436,7 +436,9 @@ class SelectorWorld:
                 )
             except Exception:  # noqa: BLE001
                 have, want, same = 0, 1, True
-            if want <= have or not same:
+            if op.get("shrink") and same and self.pid == "C06" and 1 <= want <= have:
+                pass  # a continuation that asks for fewer: may be refused; judged if it succeeds
+            elif want <= have or not same:
                 self.count("out_of_domain_warm_not_increasing")
                 return
         if self.pid == "C08" and not op.get("expect"):
@@ -547,6 +549,9 @@ class SelectorWorld:
         e = rec.exc
         if self.pid == "C06":
             if op.get("expect") == "reject":
+                return
+            if op.get("shrink"):
+                self.count("shrinking_continuation_refused")
                 return
             if isinstance(e, ClockReadCap):
                 self.violate(
@@ -821,6 +826,36 @@ class SelectorWorld:
         if not op.get("warm") or m["ref"] is None:
             m["ref"] = FPSReference(Xp)
             m["seldist"] = []
+        if op.get("shrink") and op.get("warm"):
+            # the continuation was accepted with a smaller request: what is left must be the
+            # first picks of the earlier selection, with the distance table that belongs to them
+            self.probe("shrinking_continuation_accepted")
+            try:
+                ns = int(obj.n_selected_)
+                kept = [int(v) % Xp.shape[0] for v in obj.selected_idx_[:ns]]
+                tab = np.array(obj.get_distance(), dtype=float)
+            except Exception as e:  # noqa: BLE001
+                V("public_state_missing", f"{type(e).__name__}: {e}")
+                return
+            N = resolve_n_to_select(p.get("n_to_select"), Xp.shape[0])
+            old = list(m["ref"].selected)
+            if ns != N:
+                V("size_ne_requested", f"n_selected_={ns} but n_to_select implies {N} (continuation with a smaller request)")
+                return
+            if kept != old[:ns]:
+                V("prefix_changed", f"after a continuation with a smaller request the selection is {kept}, earlier picks were {old}")
+                return
+            ref2 = FPSReference(Xp)
+            for j in kept:
+                ref2.add(j)
+            m["ref"] = ref2
+            m["seldist"] = m["seldist"][:ns]
+            d = np.abs(tab - ref2.mind) if tab.shape == ref2.mind.shape else np.array([np.inf])
+            d[~np.isfinite(d)] = np.inf
+            if float(np.max(d)) > ref2.tau:
+                w = int(np.argmax(d))
+                V("distance_table_wrong", f"after a continuation with a smaller request ({ns} kept) table entry {w} is {tab[w] if tab.shape == ref2.mind.shape else tab.shape}, true minimum distance {ref2.mind[w]:.6g}")
+            return
         ref = m["ref"]
         steps = list(rec.steps)
         try:
